@@ -108,6 +108,7 @@ void reb_collision_search(struct reb_simulation* const r){
                         ip = trace_map[i];
                     }
                     struct reb_particle p1 = particles[ip];
+                    if (isnan(p1.y)) continue; // Flagged for removal (tree in use). Will be removed at the next tree update.
                     struct reb_vec6d gborig = reb_boundary_get_ghostbox(r, gbx,gby,gbz);
                     struct reb_vec6d gb = gborig;
                     // Precalculate shifted position 
@@ -129,6 +130,7 @@ void reb_collision_search(struct reb_simulation* const r){
                             jp = trace_map[j];
                         }
                         struct reb_particle p2 = particles[jp];
+                        if (isnan(p2.y)) continue; // Flagged for removal.
                         double dx = gb.x - p2.x; 
                         double dy = gb.y - p2.y; 
                         double dz = gb.z - p2.z; 
@@ -179,6 +181,7 @@ void reb_collision_search(struct reb_simulation* const r){
                         ip = trace_map[i];
                     }
                     struct reb_particle p1 = particles[ip];
+                    if (isnan(p1.y)) continue; // Flagged for removal (tree in use). Will be removed at the next tree update.
                     struct reb_vec6d gborig = reb_boundary_get_ghostbox(r, gbx,gby,gbz);
                     struct reb_vec6d gb = gborig;
                     // Precalculate shifted position 
@@ -195,6 +198,7 @@ void reb_collision_search(struct reb_simulation* const r){
                             jp = trace_map[j];
                         }
                         struct reb_particle p2 = particles[jp];
+                        if (isnan(p2.y)) continue; // Flagged for removal.
                         const double dx1 = gb.x - p2.x; // distance at end
                         const double dy1 = gb.y - p2.y;
                         const double dz1 = gb.z - p2.z;
